@@ -530,6 +530,10 @@ fn check_template_args(
 
     for (idx, arg_value) in arg_values.into_iter().enumerate() {
         let Some((arg_value_name, arg_value_typ, arg_value_range)) = arg_value else {
+            // the type of the value is unknown, but the positional argument is specified
+            if let Some(arg) = template_args.get(idx) {
+                unsolved_args.remove(&arg.name);
+            }
             continue;
         };
 
